@@ -450,8 +450,8 @@ def validateOrderCtx (w : World) (s : Strategy) (o : Order) : Option String :=
   else
     let resetEl := c.lastReset.map (elapsedSeconds w.clock)
     let placedEl := c.lastPlaced.map (elapsedSeconds w.clock)
-    if (match resetEl with | some e => decide (e ≠ 0 ∧ e < t.resetSeconds) | none => false) then some "reset_elapsed_seconds"
-    else if (match placedEl with | some e => decide (e ≠ 0 ∧ e < t.placeResetSeconds) | none => false) then some "placed_elapsed_seconds"
+    if (match resetEl with | some e => decide (e < t.resetSeconds) | none => false) then some "reset_elapsed_seconds"
+    else if (match placedEl with | some e => decide (e < t.placeResetSeconds) | none => false) then some "placed_elapsed_seconds"
     else if (c.trades.length = s.maxTrade ∧ !c.trades.contains t.id) ∨ c.trades.length > s.maxTrade then some "trade_count"
     else if (c.liveTrades.length = s.maxLive ∧ !c.liveTrades.contains t.id) ∨ c.liveTrades.length > s.maxLive then some "live_trade_count"
     else none
